@@ -53,7 +53,46 @@ def bounds(rng, w, n, signed):
     return pat(lo, W), pat(hi, W)
 
 
+def boundary_words(rng_, W, unsigned_range):
+    """RNG words whose low product half lands exactly on / next to the acceptance zone boundary.
+    range = 0 means the full range (no rejection). Both zone formulas of the sampling law are tried."""
+    from math import gcd
+    M = 1 << W
+    r = unsigned_range
+    if r == 0:
+        return []
+    zones = {M - 1 - ((M - r) % r)}
+    lz = W - r.bit_length()
+    zones.add(((r << lz) - 1) % M)
+    out = []
+    g = gcd(r, M)
+    for zone in zones:
+        for t in (zone, zone + 1, zone - 1, zone - g, zone + g):
+            t %= M
+            t -= t % g
+            v = (t // g) * pow(r // g, -1, M // g) % (M // g)
+            out.append(v)
+            if g > 1:
+                out.append((v + M // g) % M)
+    return out
+
+
 def gen(rng, tier):
+    # streams that start with a zone-boundary word followed by filler: acceptance must flip exactly at the boundary
+    for cfg in (cfgs(tier)):
+        w, n = wn(cfg)
+        if n > 20:
+            continue
+        W = w * n
+        BY = W // 8
+        for _ in range(6 if tier == "thorough" else 2):
+            for s in "ui":
+                lo, hi = bounds(rng, w, n, s == "i")
+                r = (hi - lo + 1) % (1 << W)
+                for v in boundary_words(rng, W, r)[:8]:
+                    st = v.to_bytes(BY, "little") + stream(rng, BY, 3)
+                    for op in ("sample_single_inclusive", "uniform_new_inclusive", "gen_range_inclusive"):
+                        yield f"{op} {s}{cfg} {hx(lo)} {hx(hi)} {st.hex()}", "zone-boundary"
     reps = 60 if tier == "thorough" else 10
     for cfg in cfgs(tier):
         w, n = wn(cfg)
